@@ -162,3 +162,14 @@ contract(f"{SWM}::SoftwareManager.uninstall", props=["C13", "C05"],
          # both loops leave (break) right after their only modification, so no iteration starts from a modified state
          loops={0: {"inv": [], "modifies": []}, 1: {"inv": [], "modifies": []}})
 inline("src/primaite/simulator/core.py::SimComponent.parent")
+
+# ---- open ports ("software that is not running never ... keeps its port open") ------------------------------------------
+spec("sw_running(sw)", "sw.operating_state == ApplicationOperatingState.RUNNING or sw.operating_state == ServiceOperatingState.RUNNING")
+contract(f"{SWM}::SoftwareManager.get_open_ports", props=["C13"], bounded=2,
+         ensures=[("only_ports_of_running_software",
+                   "forall(i, 0, len(result), exists(j, 0, len(self.port_protocol_mapping), sw_running(dict_val(self.port_protocol_mapping, j))"
+                   " and (result[i] == dict_val(self.port_protocol_mapping, j).port or result[i] in dict_val(self.port_protocol_mapping, j).listen_on_ports)))"),
+                  ("every_running_port_open",
+                   "forall(j, 0, len(self.port_protocol_mapping), implies(sw_running(dict_val(self.port_protocol_mapping, j)),"
+                   " dict_val(self.port_protocol_mapping, j).port in result))")],
+         modifies=[], allocates=True)
